@@ -16,6 +16,31 @@ VERIF = os.path.dirname(os.path.dirname(os.path.abspath(__file__)))
 SPEC = os.path.join(VERIF, "spec")
 HARNESS = os.path.join(VERIF, "harness")
 WORK = os.path.join(VERIF, "work")
+OUT = VERIF  # evidence/ and replays/ live here
+REPO = "/repo"
+
+# Developer facility (never used by registered commands): VERIF_REPO=<scratch worktree> runs a
+# check against another copy of the repository without touching /repo. The harness manifest is
+# copied with its path dependencies re-pointed, sources are shared by symlink, and build
+# output, TLC scratch, evidence and replays all go under <worktree>/.verif-alt so that they
+# disappear together with the worktree.
+_alt = os.environ.get("VERIF_REPO")
+if _alt and os.path.realpath(_alt) != "/repo":
+    REPO = os.path.realpath(_alt)
+    _root = os.path.join(REPO, ".verif-alt")
+    os.makedirs(os.path.join(_root, "harness", ".cargo"), exist_ok=True)
+    with open(os.path.join(HARNESS, "Cargo.toml")) as _f:
+        _t = _f.read().replace('"/repo/', '"' + REPO + "/")
+    with open(os.path.join(_root, "harness", "Cargo.toml"), "w") as _f:
+        _f.write(_t)
+    for _n in ("Cargo.lock", ".cargo/config.toml"):
+        shutil.copy(os.path.join(HARNESS, _n), os.path.join(_root, "harness", _n))
+    _src = os.path.join(_root, "harness", "src")
+    if not os.path.islink(_src):
+        os.symlink(os.path.join(HARNESS, "src"), _src)
+    HARNESS = os.path.join(_root, "harness")
+    WORK = os.path.join(_root, "work")
+    OUT = _root
 BIN = os.path.join(HARNESS, "target", "release")
 TLC_CP = "/opt/veriftools/tla/tla2tools.jar:/opt/veriftools/tla/CommunityModules-deps.jar"
 
@@ -294,9 +319,14 @@ class Findings:
     `fixed: property=Cnn <commit> <text>`. Read-only at run time."""
 
     def __init__(self, path=os.path.join(VERIF, "KNOWN_FINDINGS.txt")):
+        import glob
         self.known = []
-        if os.path.exists(path):
-            for line in open(path):
+        # proposed/*-findings.txt: findings under adjudication while a check is being developed
+        paths = [path] + sorted(glob.glob(os.path.join(VERIF, "proposed", "*-findings.txt")))
+        for pth in paths:
+            if not os.path.exists(pth):
+                continue
+            for line in open(pth):
                 line = line.strip()
                 if not line.startswith("known:"):
                     continue
@@ -361,7 +391,7 @@ class Result:
         for (cls, _m), (k, n) in self.known_hits.items():
             print(f"KNOWN-FINDING: property={self.prop} class={cls} match={json.dumps(k['match'], sort_keys=True)} hits={n} :: {k['text']}")
         rc = 0
-        rdir = os.path.join(VERIF, "replays", self.prop)
+        rdir = os.path.join(OUT, "replays", self.prop)
         seen = set()
         for cls, fields, detail in self.violations:
             h = hashlib.sha1(json.dumps([cls, fields], sort_keys=True).encode()).hexdigest()[:12]
@@ -399,8 +429,8 @@ class Result:
             "wall_s": round(wall, 2),
             "violations": len(seen),
         }
-        os.makedirs(os.path.join(VERIF, "evidence"), exist_ok=True)
-        with open(os.path.join(VERIF, "evidence", f"{self.prop}.json"), "w") as f:
+        os.makedirs(os.path.join(OUT, "evidence"), exist_ok=True)
+        with open(os.path.join(OUT, "evidence", f"{self.prop}.json"), "w") as f:
             json.dump(ev, f, indent=1)
         log(f"[{self.prop}] {self.tier} done in {wall:.1f}s: states={self.states} transitions={self.transitions} "
             f"traces={self.traces} evaluations={self.evaluations} nontrivial={len(self.nontrivial)} "
